@@ -61,6 +61,7 @@ func TestVerifC17Dump(t *testing.T) {
 		{"arg_immediate_shift_64_implicit_imm16_hw", arg_immediate_shift_64_implicit_imm16_hw},
 		{"arg_immediate_OptLSL_amount_16_0_48", arg_immediate_OptLSL_amount_16_0_48},
 		{"arg_Xns_mem_optional_imm12_8_unsigned", arg_Xns_mem_optional_imm12_8_unsigned},
+		{"arg_St", arg_St}, {"arg_Dt", arg_Dt}, {"arg_Qt", arg_Qt}, {"arg_prfop_Rt", arg_prfop_Rt},
 	}
 	for _, k := range kinds {
 		fmt.Fprintf(w, "kind %s %d\n", k.n, uint16(k.v))
